@@ -18,7 +18,7 @@ import ast
 from z3 import *
 from pyvc.core import *
 from contracts.graph_theory import *
-from contracts.task import (F, EMPTY, H, Inv, INV_LABELS, U1, F1below, F2below, walk_pre, oblige_struct, c_all_children, c_check_links, parent_setter_call, links_cross,
+from contracts.task import (F, EMPTY, H, Inv, INV_LABELS, U1, F1below, F2below, walk_pre, oblige_struct, c_all_children, c_check_links, parent_setter_call, links_cross, clashfn, _Quiet,
                             links_cross_def, LinkPlugin, KID_AX, kid, t_, c_, a_, b_, u_, w_, c_id)
 from pyvc.unit import Unit
 
@@ -118,7 +118,8 @@ def reasons(h, me, V_):
     return Or(Exists([x], And(mem(V_, x), bad(x))), CLASHL(h.par, h.tid, h.own, me, V_))
 
 
-def children_setter_unit():
+def children_setter_unit(late=False):
+    """late=True: the same function against the part of the contract that says `once the checks have passed, the attach loop cannot refuse` (C15); contract splitting keeps the queries small"""
     def build():
         hc = lambda c: H(c.eng, c.st); h0 = lambda c: H(c.eng, c.pre); me = lambda c: c['self']
         V0 = lambda c: c.st.ghost.get('value0', c.pre.ghost.get('value0'))
@@ -198,6 +199,49 @@ def children_setter_unit():
                 'C01,C05,C11/accepted-only-without-a-reason-to-reject': Not(reasons(g, m, Vv)),
             })
             return d
+        # ---------------------------------------------------------------- late=True: the attach loop cannot refuse
+        R0 = lambda c: c.pre.ghost['R0']          # a name for receiving_root(h0, self) (patterns must not contain if-then-else terms)
+        k_ = Const('k_', T.z); y_ = Const('y_', T.z)
+        NEW0 = lambda c, z: And(Exists([k_], And(mem(V0(c), k_), insub(h0(c).par, k_, z))), Not(insub(h0(c).par, R0(c), z)))
+
+        def inv_L(c):
+            h, g = hc(c), h0(c); m = me(c); Vv = c['value']
+            return {'late/ancestors-of-the-task-unchanged': ForAll([a_], Desc(h.par, a_, m) == Desc(g.par, a_, m), patterns=[Desc(h.par, a_, m)]),
+                    'late/owners-are-the-old-ones-none-or-the-owner-of-the-task': And(h.own[m] == g.own[m], ForAll([x], Or(h.own[x] == g.own[x], h.own[x] == W.null, h.own[x] == g.own[m]), patterns=[h.own[x]])),
+                    'late/new-descendants-appear-only-under-the-task-and-its-ancestors': ForAll([t_, x], Implies(Desc(h.par, t_, x), Or(Desc(g.par, t_, x), t_ == m, Desc(g.par, t_, m))), patterns=[Desc(h.par, t_, x)]),
+                    'late/the-receiving-tree-only-gains-incoming-tasks': ForAll([x], Implies(insub(h.par, R0(c), x), Or(insub(g.par, R0(c), x), NEW0(c, x))), patterns=[Desc(h.par, R0(c), x)]),
+                    'late/the-root-of-the-receiving-tree-is-unchanged': receiving_root(h, m) == R0(c),
+                    'late/ids-are-unique-within-the-receiving-tree': ForAll([x, y_], Implies(And(x != y_, insub(g.par, R0(c), x), insub(g.par, R0(c), y_)), g.tid[x] != g.tid[y_]), patterns=[MultiPattern(g.tid[x], g.tid[y_])]),
+                    'late/no-incoming-task-has-the-id-of-a-task-of-the-receiving-tree': ForAll([x, y_], Implies(And(NEW0(c, x), insub(g.par, R0(c), y_)), g.tid[x] != g.tid[y_]), patterns=[MultiPattern(g.tid[x], g.tid[y_])]),
+                    'late/no-two-incoming-tasks-share-an-id': ForAll([x, y_], Implies(And(x != y_, NEW0(c, x), NEW0(c, y_)), g.tid[x] != g.tid[y_]), patterns=[MultiPattern(g.tid[x], g.tid[y_])])}
+        LL = list(['late/ancestors-of-the-task-unchanged', 'late/owners-are-the-old-ones-none-or-the-owner-of-the-task', 'late/new-descendants-appear-only-under-the-task-and-its-ancestors',
+                                               'late/the-receiving-tree-only-gains-incoming-tasks', 'late/the-root-of-the-receiving-tree-is-unchanged', 'late/ids-are-unique-within-the-receiving-tree', 'late/no-incoming-task-has-the-id-of-a-task-of-the-receiving-tree', 'late/no-two-incoming-tasks-share-an-id'])
+
+        def c_clash_list_late(eng, st, recv, args, kws, node):
+            h = H(eng, st); r = CLASHL(h.par, h.tid, h.own, args[0].e, args[1].e)
+            st.assume(r == clash_def(h, args[0].e, args[1].e))          # what _has_id_intersection returns (proved by its unit)
+            return [(st, V(r, BOOL))]
+
+        def c_set_parent_late(eng, st, recv, args, kws, node):
+            h = H(eng, st); v = recv.e; m = eng.coerce(args[0], T); g = H(eng, eng.pre_state)
+            pub = If(Or(h.par[v] == null, h.tid[h.par[v]] == EMPTY), null, h.par[v])
+            clash = clashfn(m, v, h)
+            st.assume(clash == clash_def(h, m, one_of(v)))                                                  # the id test the parent setter runs (proved by the unit of _has_id_intersection)
+            st.assume(links_cross(h, v, m) == links_cross_def(h, v, m))                                     # definition of the opaque predicates (reveal)
+            ta, an = Consts('ta_ an_', T.z)
+            st.assume(Implies(Not(links_cross(g, v, m)), ForAll([ta, an], Implies(And(insub(g.par, v, ta), Or(an == m, Desc(g.par, an, m))), And(Not(mem(g.P(ta), an)), Not(mem(g.S(ta), an)))),
+                                                                patterns=[mem(g.P(ta), an), mem(g.S(ta), an)])))
+            cc = Ctx(eng, st, pre=eng.pre_state)
+            lemA = ForAll([x], Implies(insub(h.par, v, x), insub(g.par, v, x)), patterns=[Desc(h.par, v, x)])
+            st.oblige('lemma/C15/the-subtree-of-the-task-to-attach-has-not-grown', lemA, f'@{node.lineno}'); st.assume(lemA)
+            lemB = ForAll([x], Implies(insub(g.par, v, x), Or(insub(g.par, R0(cc), x), NEW0(cc, x))), patterns=[Desc(g.par, v, x)])
+            st.oblige('lemma/C15/its-tasks-are-incoming-tasks-or-tasks-of-the-receiving-tree', lemB, f'@{node.lineno}'); st.assume(lemB)
+            st.oblige('C15/the-attach-loop-cannot-refuse/owner-test', Not(And(h.own[v] != W.null, h.own[m] != h.own[v])), f'@{node.lineno}')
+            st.oblige('C15/the-attach-loop-cannot-refuse/id-test', Not(And(h.own[v] == W.null, pub != m, clash)), f'@{node.lineno}')
+            st.oblige('C15/the-attach-loop-cannot-refuse/cycle-test', Not(insub(h.par, v, m)), f'@{node.lineno}')
+            st.oblige('C15/the-attach-loop-cannot-refuse/link-test', Not(links_cross(h, v, m)), f'@{node.lineno}')
+            res = parent_setter_call(eng, _Quiet(st), v, m, node.lineno, X=viol(h))
+            return [(s2, r) for s2, r in res if not isinstance(r, Raise)]          # the refusal has just been shown impossible
         FL = LABS + ['C16/children-list-is-exactly-the-given-list', 'C16/every-named-task-reports-this-parent', 'C11,C16/children-left-out-are-detached', 'C16/parents-of-all-other-tasks-unchanged',
                      'C16/other-children-lists-only-lose-the-named-tasks', 'C16/dependency-lists-ids-and-list-objects-unchanged', 'C01,C05,C11/accepted-only-without-a-reason-to-reject']
         fc = {'sig': {'self': T, 'value': LT}, 'ghost': {'attach_rejected': BOOL},
@@ -206,7 +250,7 @@ def children_setter_unit():
                         1: {'fingerprint': 'for v in self.__children', 'havoc_heap': ['Task._Task__parent', 'Task._Task__wbs'],
                             'invariant': [('release/' + l_, (lambda l_: lambda c: inv_B(c)[l_])(l_)) for l_ in BL]},
                         2: {'fingerprint': 'for v in value', 'havoc_heap': ['Task._Task__parent', 'Task._Task__wbs', 'PyList.elems'],
-                            'invariant': [('attach/' + l_, (lambda l_: lambda c: inv_C(c)[l_])(l_)) for l_ in CL]},
+                            'invariant': [('attach/' + l_, (lambda l_: lambda c: inv_C(c)[l_])(l_)) for l_ in CL] + ([(l_, (lambda l_: lambda c: inv_L(c)[l_])(l_)) for l_ in LL] if late else [])},
                         },
               'raises': {'RuntimeError': [('C15/a-call-rejected-by-a-check-changes-nothing', lambda c: Or(c.st.ghost['attach_rejected'], same_heap(c))),
                                           ('C01,C05,C11/rejected-by-a-check-only-for-a-stated-reason', lambda c: Or(c.st.ghost['attach_rejected'], reasons(h0(c), me(c), V0(c))))]},
@@ -214,11 +258,33 @@ def children_setter_unit():
         contracts = {'fn:_to_list': c_to_list, 'fn:_check_no_nones_in_list': c_none, 'fn:_has_id_intersection': c_clash_list, 'prop:Task.all_children': c_all_children,
                      'fn:_check_no_links_to_ancestors': c_check_links, 'Task._detach': c_detach, 'prop:Task.id': c_id,
                      'setprop:Task.parent': c_set_parent}
+        class LatePlugin(ChildrenPlugin):
+            """cut lemmas about the PRE-state, proved once at the statement between the two loops (self.__children.clear()), then available to the attach loop"""
+            def call(self_, eng, e, st):
+                res = ChildrenPlugin.call(self_, eng, e, st)
+                if isinstance(e.func, ast.Attribute) and e.func.attr == 'clear' and res is not NotImplemented:
+                    for s2, r in res:
+                        if isinstance(r, Raise): continue
+                        cc = Ctx(eng, s2, pre=eng.pre_state); g = H(eng, eng.pre_state); R = R0(cc)
+                        lem1 = And(rootof(g.par, R) == R, g.par[R] == null, R != null, ForAll([x], Implies(Desc(g.par, R, x), rootof(g.par, x) == R), patterns=[Desc(g.par, R, x)]))
+                        s2.oblige('lemma/C05,C15/the-receiving-tree-is-the-tree-of-its-root', lem1, f'@{e.lineno}'); s2.assume(lem1)
+                        lem2 = inv_L(cc)['late/ids-are-unique-within-the-receiving-tree']
+                        s2.oblige('lemma/C05,C15/ids-are-unique-within-the-receiving-tree', lem2, f'@{e.lineno}'); s2.assume(lem2)
+                return res
+        if late:
+            fc['requires'] = fc['requires'] + [(U1, lambda c: Inv(hc(c))[U1]), ('ghost-name-of-the-receiving-root', lambda c: c.st.ghost['R0'] == receiving_root(hc(c), me(c)))]
+            fc['ghost'] = dict(fc['ghost'], R0=T)
+            fc['ensures'] = []; fc['raises'] = {'RuntimeError': []}
+            contracts.update({'fn:_has_id_intersection': c_clash_list_late, 'setprop:Task.parent': c_set_parent_late})
+            e = Engine(F, 'Task.children.setter', contracts, TASK_CLASSES, fc, plugins=[LatePlugin()]); e.oblige_only = ()          # call-site obligations of the callees: discharged in the core unit
+            return e, LIST_AX + LIST_DL_AX + GRAPH_AX + KID_AX + ROOT_AX + ONE_AX
         return Engine(F, 'Task.children.setter', contracts, TASK_CLASSES, fc, plugins=[ChildrenPlugin()]), LIST_AX + LIST_DL_AX + GRAPH_AX + KID_AX
+    if late:
+        return Unit('Task.children.setter[no-late-refusal]', F, build, ['C15'], shards=4, timeout_ms=15000)
     return Unit('Task.children.setter', F, build, ['C01', 'C05', 'C11', 'C15', 'C16'], shards=4, timeout_ms=15000)
 
 
-UNITS = [children_setter_unit()]
+UNITS = [children_setter_unit(), children_setter_unit(late=True)]
 
 
 # ================================================================================================ callers of the children setter
@@ -612,7 +678,7 @@ UNITS += [task_init_unit()]
 
 
 # ================================================================================================ _has_id_intersection (the id test of C05)
-from contracts.closure import SetPlugin, forest_struct as forest_below, WFH, same_heap as reads_only, MEASURE_AX as _M
+from contracts.closure import SetPlugin, forest_struct as forest_below, WFH, same_heap as reads_only, MEASURE_AX as _M, one_of, ONE_AX
 IDSET = S('IdSet', ArraySort(IntSort(), BoolSort()))
 
 
